@@ -744,7 +744,8 @@ BOUNDS = dict(
           'generated models with 1..2 states (also after an earlier '
           'administration into the other state); regimen tables for multiplier '
           '0..3 with at most 4 doses before final_time (floor forked up to 5); '
-          'dataset regimens: 2-3 individuals, every pair of row kinds {dose '
+          'dataset regimens (8 of them after an earlier dosed dataset on the '
+          'same controller, 4 of those with an undosed last dataset): 2-3 individuals, every pair of row kinds {dose '
           'with duration, bolus, dose without time, duration without dose, '
           'measurement} for the first individual, block / interleaved / '
           'reversed row order, string and integer IDs, with and without a '
